@@ -151,6 +151,13 @@ def describe(e: ast.AST, env: Dict[str, Alts]) -> Alts:
                 else:
                     return None
             return frozenset(out)
+        # S.split(sep) / S.splitlines(): a pure function of S — two occurrences with the same text are the same sequence
+        if isinstance(f, ast.Attribute) and f.attr in ("split", "rsplit", "splitlines") and not e.keywords and \
+                isinstance(f.value, (ast.Name, ast.Attribute)) and all(isinstance(a, ast.Constant) for a in e.args):
+            recv = describe(f.value, env)        # (the binding of the receiver in force here: `text#2.split(';')`)
+            if recv is not None and len(recv) == 1 and not next(iter(recv)).filters and next(iter(recv)).elt == "_":
+                return frozenset([Seq(f"{next(iter(recv)).base}.{f.attr}({', '.join(ast.unparse(a) for a in e.args)})")])
+            return None
         return None
     if isinstance(e, (ast.ListComp, ast.GeneratorExp)) and len(e.generators) == 1 and isinstance(e.generators[0].target, ast.Name) and \
             not e.generators[0].is_async:
